@@ -36,6 +36,21 @@ CLAIMED = {
    note="Trusted: Lean kernel + standard axioms; collision resistance and item framing of merlin/STROBE. Not hashed by design (and not in the property's parameter list): per-claim schema entries (type, validators, print_friendly), absent vs empty schema label/description — the model's types erase exactly those.",
    technique="Lean 4 injectivity proof of the transcript encoder + byte-exact transcript correspondence + parameter-mutation sweep",
    design="§7 C04"),
+ "C05": dict(
+   text="Lean 4 theorems: on a strictly ascending revealed list (what every caller passes after the repair) the index→response lookup returns exactly the hidden indices, each with the response at the slot where the proof of knowledge pairs its generator (proved by an invariant over the cursor loop; the unsorted-list shift of the pinned tree is exhibited); special soundness of the commitment and ElGamal verifiers extracts the predicate's witness with the same difference quotient of the shared response that the signature extractor assigns to that message, accumulator statements are linked through s_y equality. Deviating holders with valid credentials attack every statement kind on the real verifier: sub-protocol on another claim / other credential under the verifier's transcript (steered prover), every ordering of the proof's index list, transplanted predicate proofs.",
+   note="Trusted: Lean kernel + standard axioms; soundness of the VB20 membership proof itself (Gt equation) and of bulletproofs; forking lemma. The composition 'lookup slot = generator slot' uses hiddenGens taken in index order (model of both suites' verify).",
+   technique="Lean 4 proof (loop invariant of the lookup + shared-response extraction) + steered-prover deviation catalogue",
+   design="§7 C05"),
+ "C08": dict(
+   text="Lean 4 theorems over the integer arithmetic of range statements for all of i64 and any group order above 2^65: the value opened by the verifier's lower (upper) adjusted commitment has a representative below 2^64 iff lower ≤ v (v ≤ upper), hence the two bulletproof claims are jointly satisfiable exactly for in-range values; the prover's pre-check is the same condition and, when it passes, its u64 arithmetic does not wrap and yields exactly the values the verifier's commitments open to. Real create/verify verdicts over the boundary lattice and random triples are compared with the model; out-of-range values are attacked with a steered prover.",
+   note="Trusted: Lean kernel + standard axioms; soundness / completeness of the third-party 64-bit bulletproofs (the statement 'committed value < 2^64'); binding of the Pedersen commitment to the signed claim is C05's.",
+   technique="Lean 4 proof (integer / modular arithmetic over the whole i64 domain) + verdict correspondence on a boundary lattice",
+   design="§7 C08"),
+ "C09": dict(
+   text="Lean 4 theorems: the verifier's all-equal test on the looked-up responses for two challenges forces equal difference quotients, i.e. equal extracted (signed, by C17) values; differing values make the test fail for at least one challenge; one shared nonce with equal values passes. Real runs over 2..3 credentials from different issuers, hashed / number / scalar positions, equal and unequal values incl. scalars differing only above bit 64, with deviating holders (independent nonces under the verifier's challenge, responses copied between proofs, equality proof removed / stored elsewhere).",
+   note="Trusted: as C05/C17. Completeness of nonce sharing across overlapping statements is tied by the chained-equality scenarios of C03 (repaired finding F04).",
+   technique="Lean 4 proof (equal responses ⇒ equal extracted values) + honest/deviating runs on the real verifier",
+   design="§7 C09"),
  "C11": dict(
    text="Lean 4 theorems: a changed response moves the recomputed Schnorr commitment whenever its base point is not the identity, a changed statement point moves it when the challenge is non-zero (generic over the truncating msm), instantiated for the commitment and ElGamal verifiers and turned into a rejection theorem for the BBS t-check; removal / replacement of required proofs is decided by the dispatch theorems of C01. Every leaf of honest presentations (JSON form: random / zero / identity / negation / +1 / sibling; vectors resized; proofs removed / swapped) and sampled single-byte / single-bit changes of the BARE form are run against the real decoder + verifier.",
    note="Trusted: Lean kernel + standard axioms; a fresh transcript hitting the presented challenge is negligible (random oracle); canonical third-party decoders. Known finding: enumeration total_values above 16 bits is not covered by any hashed value.",
